@@ -189,13 +189,17 @@ def uu_model(uu, tables):
 
 
 def make_class(specs):
-    """specs: {pname: (datatype, default or NODEFAULT, update_unchanged, has_write, has_check)}"""
+    """specs: {pname: (datatype, default or NODEFAULT, update_unchanged, has_write, has_check[, readonly])}
+    every generated class also has the parameter `h` that is NOT exported: no message may ever name it"""
+    from frappy.datatypes import FloatRange
     from frappy.modules import Module
     from frappy.params import Parameter
-    attrs = {}
-    for pn, (dt, default, uu, has_write, has_check) in specs.items():
+    attrs = {'h': Parameter('not exported', FloatRange(), default=0.0, readonly=False, export=False, update_unchanged='always')}
+    for pn, spec in specs.items():
+        dt, default, uu, has_write, has_check = spec[:5]
+        readonly = bool(spec[5]) if len(spec) > 5 else False
         kw = {} if default is NODEFAULT else {'default': default}
-        attrs[pn] = Parameter('generated', dt, readonly=False, update_unchanged=uu, **kw)
+        attrs[pn] = Parameter('generated', dt, readonly=readonly, update_unchanged=uu, **kw)
 
         def rfunc(self, pn=pn):
             r = self.script[_threading.get_ident(), pn, 'r']
@@ -241,7 +245,7 @@ def build(case, clock, sched=None):
         factory, valid, _ = cat[ps['kind']]
         dt = factory()
         default = NODEFAULT if ps['nodefault'] else valid[0]
-        specs[PNAMES[pid]] = (dt, default, ps['uu'], ps['has_write'], ps['has_check'])
+        specs[PNAMES[pid]] = (dt, default, ps['uu'], ps['has_write'], ps['has_check'], ps.get('readonly', False))
     cls = make_class(specs)
     cfg = {'cls': cls, 'description': 'generated'}
     if case['mw'] is not None:
@@ -296,6 +300,8 @@ def do_op(m, case, pid, op, errs):
             getattr(m, 'write_' + pn)(raw_of(case, pid, ridx))
         elif kind == 'assign':
             setattr(m, pn, raw_of(case, pid, op[1]))
+        elif kind == 'hidden':
+            m.h = float(op[1])                 # the funnel of a parameter that is not exported
         elif kind == 'announce':
             _, vidx, eidx, validate = op[:4]
             value, validate = announce_arg(m.parameters[pn].datatype, case, pid, vidx, eidx, validate)
@@ -350,6 +356,8 @@ def wire_op(ids, case, pid, op, errs):
         return ['write', ids.vid(pid, raw_of(case, pid, ridx)), checks_ok, wres]
     if kind == 'assign':
         return ['assign', ids.vid(pid, raw_of(case, pid, op[1]))]
+    if kind == 'hidden':
+        return ['hidden', int(op[1])]
     _, vidx, eidx, validate = op[:4]
     value, validate = announce_arg(ids.dts[pid], case, pid, vidx, eidx, validate)
     return ['announce', None if vidx is None else ids.vid(pid, value),
@@ -571,8 +579,10 @@ def gen_op(rng, ps, nvalid, nall, nerr):
     if r < 0.66:
         w = rng.choice([['none'], ['none'], ['ret', val()], ['ret', val()], ['raise', rng.randrange(nerr)], ['done']])
         return ['write', val(), rng.choice(['ok', 'ok', 'ok', 'stop', 'raise']), w]
-    if r < 0.84:
+    if r < 0.81:
         return ['assign', val()]
+    if r < 0.84:
+        return ['hidden', rng.randrange(3)]
     if r < 0.92:
         return ['announce', None if rng.random() < 0.5 else val(), rng.choice([0, 0, 1, 3, 6]), True]
     return ['announce', val(), None, rng.random() < 0.6]
@@ -581,7 +591,8 @@ def gen_op(rng, ps, nvalid, nall, nerr):
 def gen_params(rng, n):
     kinds = list(catalogue())
     return [{'kind': rng.choice(kinds), 'uu': rng.choice(UU), 'nodefault': rng.random() < 0.2,
-             'has_write': rng.random() < 0.7, 'has_check': rng.random() < 0.3} for _ in range(n)]
+             'has_write': rng.random() < 0.7, 'has_check': rng.random() < 0.3, 'readonly': rng.random() < 0.3}
+            for _ in range(n)]
 
 
 def gen_seq(rng, big):
@@ -834,6 +845,8 @@ def gen_conc(rng, big):
             pid = rng.randrange(npar)
             nvalid, nall = pool_size(params[pid]['kind'])
             op = gen_op(rng, params[pid], min(nvalid, 3), nall, nerr)
+            if op[0] == 'hidden':          # the parameter that is not exported is not part of the small-step system
+                op = ['assign', rng.randrange(min(nvalid, 3))]
             if op[0] == 'announce' and rng.random() < 0.5:
                 op.append(rng.choice(TS_ARGS))
             prog.append([pid, op])
@@ -1014,7 +1027,8 @@ def build_follow(case, clock):
     ps = case['params'][0]
     factory, valid, _ = cat[ps['kind']]
     dt = factory()
-    cls = make_class({'p': (dt, NODEFAULT if ps['nodefault'] else valid[0], ps['uu'], ps['has_write'], ps['has_check'])})
+    cls = make_class({'p': (dt, NODEFAULT if ps['nodefault'] else valid[0], ps['uu'], ps['has_write'], ps['has_check'],
+                            ps.get('readonly', False))})
     cfg = {'m': {'cls': cls, 'description': 'source'}}
     if case['mw'] is not None:
         cfg['m']['omit_unchanged_within'] = case['mw']
